@@ -233,6 +233,12 @@ def run(ck):
             valid = t[i + 1] == "1"; sv = unhx(t[i + 2]); vol = unhx(t[i + 3]); nn = int(t[i + 4]); nf = int(t[i + 5]); bb = [unhx(x) for x in t[i + 6:i + 12]]; mn = unhx(t[i + 12]); i += 13
             if not valid:
                 fails.append(("returned_cell_is_closed_oriented_manifold", dict(input=c["line"][:50000]), "a %s (%s windings, triangulation %s) was handed on as a surface that is not a closed consistently oriented manifold with Euler characteristic 2" % (c["shape"], c["wind"], "on" if c["tri"] else "off"))); break
+            scale = c["size"] ** 3
+            if abs(sv) < 1e-9 * scale:
+                # a closed surface with (numerically) zero enclosed volume: two coincident sheets
+                coarse = c["ratio"] >= 0.35
+                fails.append(("returned_cell_has_zero_volume_at_coarse_resolution" if coarse else "returned_cell_has_zero_volume", dict(input=c["line"][:50000], lmin_over_size=c["ratio"]),
+                              "a %s (%s windings, l_min/size %.2f) was reconstructed as a closed surface of %d nodes with zero enclosed volume (%.1e of the cell size cubed)" % (c["shape"], c["wind"], c["ratio"], nn, abs(sv) / scale))); break
             if not sv > 0:
                 fails.append(("returned_cell_is_oriented_outward", dict(input=c["line"][:50000]), "a %s (%s windings) was handed on inside out (signed volume %r)" % (c["shape"], c["wind"], sv))); break
             if c["wind"] != "mixed" and c["vol"] > 0:
@@ -255,7 +261,7 @@ def run(ck):
             continue
         seen.add(key)
         ck.report(case, oracle=key, key="init:" + key, what=what)
-    if not fails:
+    if not ck.violations:
         if not ok:
             ck.report(dict(log=ck.proof_res["log"][-3000:]), unchecked="Properties_C13.vo", what="proof obligations of C13 no longer check")
         if broken:
